@@ -3,6 +3,7 @@ import OpusModel.RangeCoderCodes
 import OpusModel.SilkSymsEnc
 import OpusModel.OpusFrameEnc
 import Driver.Util
+import OpusModel.OpusFrameHybridDec
 /-
   Suite `rangecoder` (property C08).  Line protocol (harness/c08_rangecoder.c emits the same):
 
@@ -53,6 +54,12 @@ import Driver.Util
     rangecoder oframer <max_data_bytes> <fill> <bandwidth> <nCh> <ms10> <flags> <records> <celt_to_silk> <hex R> <redundant_rng>
         (same, for packets to which the real encoder appended a 5 ms redundancy frame: its bytes R and final range are inputs)
       answer:  P <hex payload> F <rangeFinal> R ok   (OpusModel.OpusFrameEnc.silkRedFrame)
+
+    rangecoder hred <bandwidth> <nCh> <ms10> <spf48> <hex frame>
+        (harness/c08_hybrid.c: one HYBRID frame — the packet of the real opus_encode without its TOC byte; C08 slice Hybrid)
+      answer:  <redundancy> <celt_to_silk, printed as 0 when redundancy = 0: the harness observes it through the redundancy decode only> <redundancy_bytes> F <final range> E ok
+               (C03's decodeOpusFrame — SILK part + redundancy parse — then OpusModel.OpusFrameHybridDec.hybridRangeFinal (0 when the parse left len <= 1, else decRangeFinal): the CELT part
+                from band 17 on the shared coder and the 5 ms redundancy frame decoded from data+len, XOR of the two rng)
 
     rangecoder tf <l> <rlo> <n> <low> <nbits>
         ec_tell / ec_tell_frac for rng = (r << (l-16)) + (low ? 2^(l-16)-1 : 0), r = rlo..rlo+n-1,
@@ -263,7 +270,23 @@ def runOframeR (maxData fill bw nCh ms10 : Nat) (pk : SilkSymsEnc.PacketIn) (c2s
   let f := OpusFrameEnc.silkRedFrame buf maxData (OpusFrameEnc.silkCfg bw nCh ms10) pk c2s R rr
   s!"P {toHex f.payload} F {f.rangeFinal} R ok"
 
+def runHred (bw nCh ms10 spf48 : Nat) (fr : Bytes) : String :=
+  match SilkSyms.decodeOpusFrame 1001 bw nCh ms10 false {} fr with
+  | .ok o =>
+    match OpusFrameHybridDec.hybridRangeFinal bw nCh spf48 fr o with
+    | .ok f => s!"{o.redundancy} {if o.redundancy = 0 then 0 else o.celtToSilk} {o.redundancyBytes} F {f} E ok"
+    | .err e => s!"celt-err {repr e}"
+    | .oob => "celt-oob"
+    | .abort => "celt-abort"
+  | .err e => s!"silk-err {repr e}"
+  | .oob => "silk-oob"
+  | .abort => "silk-abort"
+
 def handle : List String → String
+  | ["hred", bw, nCh, ms10, spf48, hex] =>
+    match parseNat bw, parseNat nCh, parseNat ms10, parseNat spf48, parseHex hex with
+    | some bw, some nCh, some ms10, some spf48, some fr => runHred bw nCh ms10 spf48 fr
+    | _, _, _, _, _ => "bad-op"
   | ["oframer", maxData, fill, bw, nCh, ms10, flags, recs, c2s, r, rr] =>
     match parseNat maxData, parseNat fill, parseNat bw, parseNat nCh, parseNat ms10, parseNat flags with
     | some maxData, some fill, some bw, some nCh, some ms10, some flags =>
